@@ -234,7 +234,9 @@ fn describe(ids: &mut Ids, consensus: &Consensus, db: Option<&ChainDB>, cyc: u64
     s += &format!(" commit={}", list(&commit));
     s += &format!(
         " xf={} extlen={} xhash={}",
-        blk.data().count_extra_fields(),
+        // the chain service verifies the block as re-read from the store (`insert_block` keeps the
+        // extension only), so table fields after the extension never reach BlockExtensionVerifier
+        blk.data().count_extra_fields().min(1),
         blk.extension().map(|e| e.len().to_string()).unwrap_or("none".into()),
         b01(blk.calc_extra_hash().extra_hash() == blk.extra_hash()),
     );
@@ -649,6 +651,9 @@ impl Case<'_> {
                 if before != after {
                     self.out.oracle_fail("resubmit-changed-state", &format!("rule={}", rule));
                 }
+                if st != "valid" || verdict != Ok(false) {
+                    self.out.oracle_fail("attached-block-marked-invalid", &format!("rule={}: an attached block delivered again: verdict {:?}, status now `{}`", rule, verdict, st));
+                }
             }
         }
         if verdict.is_ok() && tip_after == blk.hash() {
@@ -824,9 +829,6 @@ fn run_case(out: &mut Out, seed: u64, base: &Path, cyc: u64, steps: usize) {
         step(&mut c);
     }
     c.check_main_chain();
-    if c.rng.chance(1, 3) {
-        poison_tip(&mut c);
-    }
     let fp = format!("{:?}|{}", cc, c.rules_hit.len());
     if c.rules_hit.len() >= 6 {
         c.out.nontrivial(fp);
@@ -1173,6 +1175,23 @@ fn boundary_valid(c: &mut Case, v: BlockView, ph: &BlockView, kind: u64, median:
             c.submit(&at, now, Intent::Valid, "ext-96");
             at
         }
+        4 => {
+            // the same block with a sixth molecule table field after the extension: not covered by
+            // any hash and dropped by the store round trip, so it is the same valid block
+            match with_extra_field(&v, &[1, 2, 3]) {
+                Some(six) => {
+                    assert_eq!(six.hash(), v.hash());
+                    c.out.count("valid:two-extra-fields-dropped-by-store");
+                    c.submit(&six, now, Intent::Valid, "two-extra-fields");
+                    let stored = c.node.store().get_block(&v.hash()).map(|b| b.data().count_extra_fields());
+                    if stored != Some(1) {
+                        c.out.oracle_fail("extra-field-stored", &format!("stored block has {:?} extra fields", stored));
+                    }
+                }
+                None => c.submit(&v, now, Intent::Valid, "plain"),
+            }
+            v
+        }
         _ => {
             c.submit(&v, now, Intent::Valid, "plain");
             v
@@ -1400,16 +1419,6 @@ fn make_mutant(
             }
         }
         42 => (edit_raw(v, |r| r.extra_hash(h256!("0x3").pack())), "extra-hash"),
-        43 if !c.cc.defaults => {
-            // cycles: one transaction more than the block cycle limit allows
-            let room = (c.cc.max_cycles / c.cyc) as usize;
-            let have = v.transactions().len() - 1;
-            if have != room {
-                return None;
-            }
-            // an extra *proposed* transaction is needed; use a too-early one only if none … keep simple:
-            return None;
-        }
         _ => return None,
     };
     if r.0.hash() == v.hash() {
@@ -1436,6 +1445,40 @@ fn fix_dao(c: &Case, blk: BlockView) -> Option<BlockView> {
     let loader = db.borrow_as_data_loader();
     let dao = DaoCalculator::new(&c.consensus, &loader).dao_field(rtxs.iter().map(AsRef::as_ref), &parent_header).ok()?;
     Some(blk.as_advanced_builder().dao(dao).build())
+}
+
+/// append one more field to the block's molecule table (BlockV1 has 5: header, uncles,
+/// transactions, proposals, extension)
+fn with_extra_field(v: &BlockView, extra: &[u8]) -> Option<BlockView> {
+    v.extension()?;
+    let data = v.data();
+    let sl = data.as_slice();
+    let rd = |o: usize| u32::from_le_bytes([sl[o], sl[o + 1], sl[o + 2], sl[o + 3]]) as usize;
+    let total = rd(0);
+    let first = rd(4);
+    let n = first / 4 - 1;
+    if n != 5 || total != sl.len() {
+        return None;
+    }
+    let mut offs: Vec<usize> = (0..n).map(|i| rd(4 + 4 * i)).collect();
+    offs.push(total);
+    let mut fields: Vec<Vec<u8>> = (0..n).map(|i| sl[offs[i]..offs[i + 1]].to_vec()).collect();
+    let mut f6 = (extra.len() as u32).to_le_bytes().to_vec();
+    f6.extend_from_slice(extra);
+    fields.push(f6);
+    let header_len = 4 + 4 * fields.len();
+    let new_total = header_len + fields.iter().map(|f| f.len()).sum::<usize>();
+    let mut out = (new_total as u32).to_le_bytes().to_vec();
+    let mut off = header_len;
+    for f in &fields {
+        out.extend_from_slice(&(off as u32).to_le_bytes());
+        off += f.len();
+    }
+    for f in &fields {
+        out.extend_from_slice(f);
+    }
+    let blk = packed::Block::new_unchecked(Bytes::from(out));
+    Some(blk.into_view_without_reset_header())
 }
 
 fn edit_dao(v: &BlockView) -> BlockView {
@@ -1499,77 +1542,55 @@ fn side_branch(c: &mut Case) {
     }
 }
 
-/// an attached block again: unchanged (→ known), and with the same header but a different body
-/// (uncles / extension are committed only through `extra_hash`, which is checked contextually)
+/// an attached block again: unchanged, and under the same header with other bodies — uncles
+/// dropped / extension changed (these pass the non-contextual stage: they are committed only
+/// through `extra_hash`, checked contextually) and no transactions at all (fails it).
+/// Since the repair of F13/F14 every such delivery must be answered `Ok(false)` and change nothing.
 fn resubmit(c: &mut Case) {
     let main = c.builder.path_to(&c.tip);
     if main.len() < 3 {
         return;
     }
-    let i = c.rng.range(1, main.len() as u64 - 1) as usize;
+    let i = if c.rng.chance(1, 3) { main.len() - 1 } else { c.rng.range(1, main.len() as u64 - 1) as usize };
     let b = c.builder.block(&main[i]).clone();
-    let now = c.builder.block(&c.tip).timestamp();
+    let now = c.max_ts;
     c.submit(&b, now, Intent::Resubmit, "resubmit-same");
-    // same header, uncles dropped / extension changed
-    let variant = if !b.uncles().hashes().is_empty() {
-        b.as_advanced_builder().set_uncles(vec![]).build_unchecked()
-    } else {
-        b.as_advanced_builder().extension(ext_of_len(&b, 40)).build_unchecked()
-    };
-    assert_eq!(variant.hash(), b.hash());
-    if ckb_verification::BlockVerifier::new(&c.consensus).verify(&variant).is_err() {
-        // e.g. a block exactly at the size limit: the variant would fail the non-contextual stage,
-        // which is the other half of the finding (see `poison_tip`)
-        return;
+    let mut variants: Vec<(BlockView, &'static str)> = vec![];
+    if !b.uncles().hashes().is_empty() {
+        variants.push((b.as_advanced_builder().set_uncles(vec![]).build_unchecked(), "resubmit-uncles-dropped"));
     }
-    c.out.count("resubmit-variant-body");
-    let raw = |node: &Node| -> (Option<Vec<u8>>, Option<Vec<u8>>) {
+    variants.push((b.as_advanced_builder().extension(ext_of_len(&b, 40)).build_unchecked(), "resubmit-extension-changed"));
+    variants.push((b.as_advanced_builder().set_transactions(vec![]).build_unchecked(), "resubmit-empty-body"));
+    let raw = |node: &Node, h: &Byte32| -> Vec<Option<Vec<u8>>> {
         let st = node.store();
-        (
-            st.get(ckb_db_schema::COLUMN_BLOCK_UNCLE, b.hash().as_slice()).map(|x| x.as_ref().to_vec()),
-            st.get(ckb_db_schema::COLUMN_BLOCK_EXTENSION, b.hash().as_slice()).map(|x| x.as_ref().to_vec()),
-        )
+        let mut v = vec![
+            st.get(ckb_db_schema::COLUMN_BLOCK_HEADER, h.as_slice()).map(|x| x.as_ref().to_vec()),
+            st.get(ckb_db_schema::COLUMN_BLOCK_UNCLE, h.as_slice()).map(|x| x.as_ref().to_vec()),
+            st.get(ckb_db_schema::COLUMN_BLOCK_EXTENSION, h.as_slice()).map(|x| x.as_ref().to_vec()),
+            st.get(ckb_db_schema::COLUMN_BLOCK_PROPOSAL_IDS, h.as_slice()).map(|x| x.as_ref().to_vec()),
+        ];
+        let key = packed::TransactionKey::new_builder().block_hash(h.clone()).index(0u32).build();
+        v.push(st.get(ckb_db_schema::COLUMN_BLOCK_BODY, key.as_slice()).map(|x| x.as_ref().to_vec()));
+        v
     };
-    let before = raw(&c.node);
-    let r = c.node.controller().blocking_process_block(Arc::new(variant.clone()));
-    let after = raw(&c.node);
-    c.out.count(&format!("resubmit-variant:{}", match &r { Ok(true) => "ok-true", Ok(false) => "ok-false", Err(_) => "err" }));
-    if before != after {
-        c.out.oracle_fail(
-            "attached-body-replaced",
-            &format!(
-                "main-chain block {} {:#x}: delivering it again with the same header and a different body ({}) returned {:?} and replaced the stored body; the stored block no longer matches its header's extra_hash",
-                b.number(),
-                b.hash(),
-                if b.uncles().hashes().is_empty() { "extension changed" } else { "uncles dropped" },
-                r.as_ref().map_err(|e| e.to_string())
-            ),
-        );
-        // put the original body back so that the rest of the case runs on an intact store
-        let _ = c.node.controller().blocking_process_block(Arc::new(b.clone()));
-        if raw(&c.node) != before {
-            c.out.oracle_fail("attached-body-not-restored", "re-delivering the original block did not restore the stored body");
+    for (variant, rule) in variants {
+        assert_eq!(variant.hash(), b.hash());
+        // the model is told the variant's features under the same id
+        let line = describe(&mut c.ids, &c.consensus, None, c.cyc, &variant);
+        c.out.op(&line, "ok");
+        let before = raw(&c.node, &b.hash());
+        c.submit(&variant, now, Intent::Resubmit, rule);
+        if raw(&c.node, &b.hash()) != before {
+            c.out.oracle_fail(
+                "attached-body-replaced",
+                &format!("main-chain block {} {:#x}: delivering it again with the same header and another body ({}) changed its stored rows", b.number(), b.hash(), rule),
+            );
+            let _ = c.node.controller().blocking_process_block(Arc::new(b.clone()));
         }
     }
-}
-
-/// last action of a case: the tip's header with a body that fails the non-contextual stage
-fn poison_tip(c: &mut Case) {
-    let tip = c.builder.block(&c.tip).clone();
-    if tip.number() == 0 {
-        return;
-    }
-    let variant = tip.as_advanced_builder().set_transactions(vec![]).build_unchecked();
-    assert_eq!(variant.hash(), tip.hash());
-    let r = c.node.controller().blocking_process_block(Arc::new(variant));
-    c.out.count(&format!("poison-tip:{}", if r.is_ok() { "ok" } else { "err" }));
-    let st = c.status(&tip.hash());
-    if st != "valid" || c.node.tip_hash() != tip.hash() {
-        c.out.oracle_fail(
-            "attached-block-marked-invalid",
-            &format!("the attached tip {} {:#x} delivered again with its own header and an empty body: status is now `{}` (children will be refused as having an invalid parent)", tip.number(), tip.hash(), st),
-        );
-    }
+    // the original definition again, for later re-submissions
+    let line = describe(&mut c.ids, &c.consensus, None, c.cyc, &b);
+    c.out.op(&line, "ok");
 }
 
 /// minimal histories of the two recorded findings (corpus/C03/*.ops: `case <n> scenario=f13|f14`)
@@ -1612,6 +1633,38 @@ fn run_scenario(out: &mut Out, name: &str, base: &Path) {
             if st == BlockStatus::BLOCK_INVALID || r4.is_err() {
                 out.oracle_fail("attached-block-marked-invalid", &format!("chain 1..3; the tip's header delivered again with an empty body -> {:?}; status of the attached tip = {:?}; its fully valid child 4 -> {:?}", r.map_err(|e| e.to_string()), st, r4));
             }
+        }
+        "f15" | "f15b" => {
+            // a valid side block (sibling of 2), stored unverified; delivered again under the same
+            // header with another body; then its branch grows until it is the heaviest
+            let s2 = sibling_of(&b2, 7, vec![]);
+            b.blocks.insert(s2.hash(), s2.clone());
+            let r0 = node.process(&s2);
+            let variant = if name == "f15" {
+                s2.as_advanced_builder().extension(ext_of_len(&s2, 40)).build_unchecked()
+            } else {
+                s2.as_advanced_builder().set_transactions(vec![]).build_unchecked()
+            };
+            assert_eq!(variant.hash(), s2.hash());
+            let r1 = node.controller().blocking_process_block(Arc::new(variant));
+            let s3 = b.build(&s2.hash(), &BlockSpec { salt: 13, ..Default::default() });
+            let s4 = b.build(&s3.hash(), &BlockSpec { salt: 14, ..Default::default() });
+            let r3 = node.process(&s3);
+            let r4 = node.process(&s4);
+            out.count(&format!("{}:side={:?} variant={} s3={} s4={}", name, r0, if r1.is_ok() { "ok" } else { "err" }, if r3.is_ok() { "ok" } else { "err" }, if r4.is_ok() { "ok" } else { "err" }));
+            // Not an oracle failure: every production entry point (RPC submit_block, sync SendBlock,
+            // compact-block reconstruction) builds its BlockView with `into_view()`, which re-derives
+            // transactions_root / proposals_hash / extra_hash from the body, so two bodies under one
+            // header hash can only be handed to the chain service by in-process code. Recorded as an
+            // observation of the chain service's behaviour towards such callers.
+            let ext_row = node.store().get(ckb_db_schema::COLUMN_BLOCK_EXTENSION, s2.hash().as_slice()).map(|x| x.as_ref().to_vec());
+            let orig = s2.extension().map(|e| e.as_slice().to_vec());
+            out.count(&format!(
+                "inprocess-only:{}:branch-{} stored-extension-row-{}",
+                name,
+                if node.tip_hash() == s4.hash() { "attached" } else { "refused" },
+                if ext_row == orig { "original" } else { "replaced" }
+            ));
         }
         other => {
             eprintln!("unknown scenario {}", other);
